@@ -85,6 +85,7 @@ pub fn run(r: &mut Report) {
                if c.expect { "Ok" } else { "Err" }, format!("{:?}", res), res == Ok(c.expect));
     }
     multi_alg(r, 1, "match-multi-algorithm");
+    multi_alg_states(r, 4, "two-algorithm-artifact-states");
     state_matrix(r);
     hostile_paths(r);
 }
@@ -140,6 +141,43 @@ fn state_matrix(r: &mut Report) {
 
 /// artifacts recorded with two hash algorithms that agree in one and differ in the other are different artifacts: MATCH must not
 /// consume them (C03), and the verdict must be the same on every run (C13: nothing may depend on which algorithm a map yields first)
+/// artifacts recorded with two algorithms, in each state (unchanged / modified in one digest / modified in both / created / deleted),
+/// under each consuming rule followed by DISALLOW: the state is decided by the digest MAPS, the same way on every run
+pub fn multi_alg_states(r: &mut Report, repetitions: usize, tag: &str) {
+    use in_toto::crypto::{HashAlgorithm, HashValue};
+    use in_toto::models::{LinkMetadataBuilder, TargetDescription};
+    let owner = key(1); let kb = key(3);
+    let td = |a: u8, b: u8| -> TargetDescription { [(HashAlgorithm::Sha256, HashValue::new(vec![a; 32])), (HashAlgorithm::Sha512, HashValue::new(vec![b; 64]))].into_iter().collect() };
+    let states: Vec<(&str, Option<TargetDescription>, Option<TargetDescription>, &str)> = vec![
+        ("unchanged", Some(td(1, 1)), Some(td(1, 1)), "none"), ("sha512-changed", Some(td(1, 1)), Some(td(1, 2)), "modify"), ("sha256-changed", Some(td(1, 1)), Some(td(2, 1)), "modify"),
+        ("both-changed", Some(td(1, 1)), Some(td(2, 2)), "modify"), ("created", None, Some(td(1, 1)), "create"), ("deleted", Some(td(1, 1)), None, "delete")];
+    for (sid, m, p, consumed_by) in states {
+        for kind in ["modify", "create", "delete"] {
+            for on_products in [false, true] {
+                let d = tmpdir();
+                let lm = LinkMetadataBuilder::new().name("b".to_string()).materials(m.clone().into_iter().map(|t| (vp("f"), t)).collect()).products(p.clone().into_iter().map(|t| (vp("f"), t)).collect()).build().unwrap();
+                write_link(d.path(), "b", kb.key_id(), &signed_link(&lm, &[&kb]));
+                let rule = match kind { "modify" => ArtifactRule::Modify(vp("*")), "create" => ArtifactRule::Create(vp("*")), _ => ArtifactRule::Delete(vp("*")) };
+                let rules = vec![rule, dis()];
+                let in_queue = if on_products { p.is_some() } else { m.is_some() };
+                let expect = !in_queue || kind == consumed_by;
+                let st = if on_products { step("b", 1, &[&kb], allow_all(), rules) } else { step("b", 1, &[&kb], rules, allow_all()) };
+                let lay = signed_layout(&layout(vec![st], vec![], &[&kb], 30), &[&owner]);
+                let mut seen = std::collections::BTreeSet::new();
+                for _ in 0..repetitions {
+                    let res = no_panic(|| in_toto_verify(&lay, owner_keys(&[&owner]), d.path().to_str().unwrap(), None)).map(|r| r.is_ok());
+                    seen.insert(format!("{:?}", res));
+                }
+                let want = format!("{:?}", Ok::<bool, String>(expect));
+                if !(seen.len() == 1 && seen.contains(&want)) || (kind == "modify" && !on_products) {
+                    r.case(tag, json!({"state": sid, "rule": format!("{} *; DISALLOW *", kind.to_uppercase()), "list": if on_products { "expected_products" } else { "expected_materials" }, "repetitions": repetitions}),
+                           &format!("{} on every run", want), format!("{:?}", seen), seen.len() == 1 && seen.contains(&want));
+                }
+            }
+        }
+    }
+}
+
 pub fn multi_alg(r: &mut Report, repetitions: usize, tag: &str) {
     use in_toto::crypto::{HashAlgorithm, HashValue};
     use in_toto::models::{LinkMetadataBuilder, TargetDescription};
